@@ -1,12 +1,14 @@
 (* C16  Rule-based warnings match their stated rules.
    Statements only; proofs are in Proofs/LintsProofs.v; the witness trees of Proofs/LintsWitness.v
    are dumps of the real parser.
-   lints      = the report of the checker models (Model/Lints.v) of the code as it is: purge map keyed by the
-                upper-cased name (/repo ef936ba), a string literal is not `pass` (/repo 44578d5)
+   lints      = the report of the checker models (Model/Lints.v) of the code as it is: the purge and the inherited
+                checker decide a method on the method node's own subtree (repair of D15-D19), names compared
+                ignoring case (/repo ef936ba), a string literal is not `pass` (/repo 44578d5)
    lints_spec = one diagnostic per declaration satisfying its rule (R_ret, R_inh, R_purge, R_name)
-   WF16       = the guard, seven named clauses (guard_profile lists them plus the key clause, which holds
-                outright for the upper-cased key); each clause that restricts the PROPERTY (not just the shape
-                of trees) is refuted below on a tree of the real parser. *)
+   lints_old  = the report with the two checkers as they were before the repair (streaming state)
+   The only hypothesis left is structural: the root of the tree is not itself a function (RootNotFunction;
+   the parser's root is an AstRoot).  NoNestedMethods (the parser never nests methods) is needed only to read
+   "its method" as THE method of a declaration (C16_one_method_per_declaration). *)
 From GoldV Require Import Base Tokens Lexer AstKinds Tree Lints LintsProofs LintsWitness.
 From Coq Require Import Permutation.
 
@@ -15,9 +17,19 @@ From Coq Require Import Permutation.
 Theorem C16_rule_ret : forall f d, In d (ret_verdict f) <-> R_ret f d.
 Proof. exact ret_verdict_spec. Qed.
 
+(* R3: a method is flagged iff it is named Init / Terminate / NotifyInit / NotifyTerminate (any letter case)
+   and NO node below it is a `pass` token or the call `inherited self.<its name>` *)
 Theorem C16_rule_inh : forall m d, In d (spec_inh m) <-> R_inh m /\ d = inh_diag m.
 Proof. exact spec_inh_in. Qed.
 
+(* ... where the call is exactly: `inherited` applied to `<l>.<r>`, l the identifier self, r an identifier or a
+   call named like the method -- receiver, operator and name are all checked, case ignored *)
+Theorem C16_rule_inh_call : forall u x, inh_self_call u x = true <-> InhSelfCall u x.
+Proof. exact inh_self_call_iff. Qed.
+
+(* R4: a local tVarByteArray DECLARATION of the method is flagged iff no call named Purge below the method node
+   (before or after the declaration) has as first argument a plain identifier equal to the variable's name ignoring
+   case; one diagnostic per declaration *)
 Theorem C16_rule_purge : forall m d,
   In d (spec_purge m) <-> exists v, R_purge m v /\ d = purge_diag v.
 Proof. exact spec_purge_in. Qed.
@@ -26,58 +38,60 @@ Theorem C16_rule_name : forall anc d x,
   In x (name_verdict anc d) <-> exists cls, R_name anc d cls /\ x = mkDiag cls WARNING (name_rng d cls) [].
 Proof. exact name_verdict_in. Qed.
 
-(* at most one diagnostic per declaration and rule *)
+(* at most one diagnostic per declaration and rule; the purge rule: exactly one per unpurged declaration *)
 Theorem C16_rule_once : forall f m,
-  (length (ret_verdict f) <= 1)%nat /\ (length (spec_inh m) <= 1)%nat.
-Proof. intros f m. split; [apply ret_verdict_once | apply spec_inh_once]. Qed.
+  (length (ret_verdict f) <= 1)%nat /\ (length (spec_inh m) <= 1)%nat /\
+  length (spec_purge m) = length (filter (fun v => negb (purged_in (body m) v)) (locals (body m))).
+Proof. intros f m. split; [apply ret_verdict_once | split; [apply spec_inh_once | apply spec_purge_count]]. Qed.
 
-(* ---- each once, and nothing else: the report is the multiset the rules generate ---- *)
+(* ---- the two stateful checkers, unguarded: exact on ANY tree ---- *)
+
+Theorem C16_inherited_exact : forall file, inherited_lint file = flat_map spec_inh (methods file).
+Proof. exact inherited_lint_spec. Qed.
+
+Theorem C16_purge_exact : forall file, unpurged_lint file = flat_map spec_purge (methods file).
+Proof. exact unpurged_lint_spec. Qed.
+
+(* ---- each once, and nothing else: the report is the list the rules generate ---- *)
 
 Theorem C16_lints_exact : forall file,
-  WF16 file -> Permutation (lints file) (lints_spec file).
-Proof. exact lints_exact_upper. Qed.
+  RootNotFunction file = true -> lints file = lints_spec file.
+Proof. exact lints_exact_eq. Qed.
 
-(* the guard of a checker with purge-map key function keyf is the conjunction of eight named clauses;
-   for today's key (upper-casing) the key clause holds outright and WF16 is the other seven *)
-Theorem C16_guard_clauses : forall keyf file,
-  WF16k keyf file <-> forallb (fun b => b) (guard_profile keyf file) = true.
-Proof. intros keyf file. unfold WF16k. rewrite wf16b_profile. tauto. Qed.
+Theorem C16_lints_exact_perm : forall file,
+  RootNotFunction file = true -> Permutation (lints file) (lints_spec file).
+Proof. exact lints_exact. Qed.
 
-Theorem C16_guard_today : forall file, WF16 file -> WF16k upper file.
-Proof. exact WF16_upper. Qed.
-
-(* the code before ef936ba (exact-spelling key): the same theorem needs the extra clause CaseConsistentPurge *)
-Theorem C16_old_guard_case : forall file,
-  WF16k key_exact file <-> WF16 file /\ CaseConsistentPurge file = true.
-Proof. exact WF16_exact_split. Qed.
-
-Theorem C16_old_lints_exact : forall file,
-  WF16k key_exact file -> Permutation (lints_k key_exact file) (lints_spec file).
-Proof. intros file H. apply (lints_exact key_exact exact_ci file H). Qed.
+(* when methods are not nested the pre-order listing is cut into method subtrees and nodes outside every method:
+   a declaration lies in at most one method *)
+Theorem C16_one_method_per_declaration : forall file,
+  NoNestedMethods file = true ->
+  nodes file = flat_map expand (items file) /\ methods file = meths (items file).
+Proof. exact methods_partition. Qed.
 
 (* ---- the verdict on a declaration depends only on that declaration and its own method ---- *)
 
+Theorem C16_lints_by_declaration : forall i r rg a ch,
+  Permutation (lints (Node KAstRoot i r rg a ch)) (flat_map decl_verdicts ch).
+Proof. exact lints_by_declaration. Qed.
+
 Theorem C16_lints_local : forall i r rg a p m q,
-  WF16k upper (Node KAstRoot i r rg a (p ++ m :: q)) ->
   Permutation (lints (Node KAstRoot i r rg a (p ++ m :: q)))
               (lints (Node KAstRoot i r rg a (p ++ q)) ++ decl_verdicts m).
-Proof. intros. apply (lints_local upper upper_ci). assumption. Qed.
+Proof. exact lints_local. Qed.
 
 Theorem C16_lints_agree : forall i1 r1 rg1 a1 p1 q1 i2 r2 rg2 a2 p2 q2 m,
-  WF16k upper (Node KAstRoot i1 r1 rg1 a1 (p1 ++ m :: q1)) ->
-  WF16k upper (Node KAstRoot i2 r2 rg2 a2 (p2 ++ m :: q2)) ->
   exists rest1 rest2,
     Permutation (lints (Node KAstRoot i1 r1 rg1 a1 (p1 ++ m :: q1))) (rest1 ++ decl_verdicts m) /\
     Permutation (lints (Node KAstRoot i2 r2 rg2 a2 (p2 ++ m :: q2))) (rest2 ++ decl_verdicts m) /\
     rest1 = lints (Node KAstRoot i1 r1 rg1 a1 (p1 ++ q1)) /\
     rest2 = lints (Node KAstRoot i2 r2 rg2 a2 (p2 ++ q2)).
-Proof. intros. apply (lints_agree upper upper_ci); assumption. Qed.
+Proof. exact lints_agree. Qed.
 
 Theorem C16_lints_permute : forall i r rg a ch ch',
-  Permutation ch ch' -> WF16k upper (Node KAstRoot i r rg a ch) ->
-  WF16k upper (Node KAstRoot i r rg a ch') /\
+  Permutation ch ch' ->
   Permutation (lints (Node KAstRoot i r rg a ch)) (lints (Node KAstRoot i r rg a ch')).
-Proof. intros. apply (lints_permute upper upper_ci); assumption. Qed.
+Proof. exact lints_permute. Qed.
 
 (* ---- repeating the request repeats the same list: the report is a function of the tree ---- *)
 
@@ -85,17 +99,17 @@ Theorem C16_lints_idempotent : forall n ast, Forall (fun r => r = lints ast) (re
 Proof. exact lints_idempotent. Qed.
 
 (* ---- non-vacuity: a file of the real parser in which every rule class fires and every
-        near-miss is present satisfies the guard; its report has the nine real diagnostics ---- *)
+        near-miss is present; its report has the nine real diagnostics ---- *)
 
 Example C16_nonvacuous_exact :
-  WF16 w_ok /\ WF16k upper w_ok /\
+  RootNotFunction w_ok = true /\ NoNestedMethods w_ok = true /\
   map dcls (lints w_ok) = [RET; PURGE; NCONST; NTYPE; NFIELD; NFUNC; NPARAM; NLOCAL; INH] /\
   lints w_ok = lints_spec w_ok /\ length (methods w_ok) = 6%nat.
 Proof. vm_compute. repeat split; reflexivity. Qed.
 
 Example C16_nonvacuous_local :
   exists i r rg a p m q,
-    w_ok = Node KAstRoot i r rg a (p ++ m :: q) /\ WF16k upper (Node KAstRoot i r rg a (p ++ m :: q)) /\
+    w_ok = Node KAstRoot i r rg a (p ++ m :: q) /\
     is_method m = true /\ map dcls (decl_verdicts m) = [PURGE; NLOCAL] /\
     length (lints (Node KAstRoot i r rg a (p ++ q))) = 7%nat.
 Proof.
@@ -109,84 +123,120 @@ Example C16_nonvacuous_idempotent :
   requests 3 (fresh_doc w_ok) = [lints w_ok; lints w_ok; lints w_ok] /\ lints w_ok <> [].
 Proof. split; [vm_compute; reflexivity | vm_compute; discriminate]. Qed.
 
-(* ---- the two repaired defects, on their witnesses (trees of the real parser) ---- *)
+(* every accepted and every rejected form in one file of the real parser: inherited SELF.init(1) inside an if,
+   x = inherited Self.TERMINATE, Purge(V) BEFORE var v, OcsByteArray.purge(U, 2) for two declarations of u  --
+   accepted;  inherited self.NotifyInit.foo, inherited self.x.NotifyTerminate, Purge(1, w) -- rejected, and w,
+   declared twice, is flagged twice *)
+Example C16_nonvacuous_forms :
+  RootNotFunction w_forms = true /\ lints w_forms = lints_spec w_forms /\
+  map dcls (lints w_forms) = [PURGE; PURGE; INH; INH] /\
+  map dkey (inherited_lint w_forms) = [[78;111;116;105;102;121;73;110;105;116];
+                                       [78;111;116;105;102;121;84;101;114;109;105;110;97;116;101]] /\
+  map dkey (unpurged_lint w_forms) = [[119]; [119]].
+Proof. vm_compute. repeat split; reflexivity. Qed.
+
+(* ---- repaired defects, on their witnesses (trees of the real parser): the report is the rule's ---- *)
 
 Ltac not_perm := let HP := fresh "HP" in intro HP; apply Permutation_length in HP; vm_compute in HP; discriminate HP.
 
-(* `var v : tVarByteArray ... Purge(V)`: the report is now the rule's (nothing); the old exact-spelling key
-   reported "not purged" although every clause but CaseConsistentPurge holds *)
-Example C16_fixed_R1_case :
-  WF16 w_case /\ lints w_case = lints_spec w_case /\ lints w_case = [].
+(* `var v : tVarByteArray ... Purge(V)` (/repo ef936ba) *)
+Example C16_fixed_R1_case : lints w_case = lints_spec w_case /\ lints w_case = [].
 Proof. vm_compute. repeat split; reflexivity. Qed.
+
+(* `proc Init  foo('pass')  endproc`: flagged (/repo 44578d5) *)
+Example C16_fixed_R2_pass_literal : lints w_passlit = lints_spec w_passlit /\ map dcls (lints w_passlit) = [INH].
+Proof. vm_compute. repeat split; reflexivity. Qed.
+
+(* D15: inherited other.Init / inherited x.y.Init / x = inherited (a + Init): flagged *)
+Example C16_fixed_R3_inherited_receiver :
+  map dcls (lints w_inhother) = [INH] /\ map dcls (lints w_inhchain) = [INH] /\ map dcls (lints w_inhexpr) = [INH] /\
+  lints w_inhother = lints_spec w_inhother /\ lints w_inhchain = lints_spec w_inhchain /\
+  lints w_inhexpr = lints_spec w_inhexpr.
+Proof. vm_compute. repeat split; reflexivity. Qed.
+
+(* D16: a local declared twice: two diagnostics *)
+Example C16_fixed_R4_duplicate_local : lints w_dup = lints_spec w_dup /\ map dcls (lints w_dup) = [PURGE; PURGE].
+Proof. vm_compute. repeat split; reflexivity. Qed.
+
+(* D17: Purge(v) before var v counts *)
+Example C16_fixed_R4_purge_before_decl : lints w_early = lints_spec w_early /\ lints w_early = [].
+Proof. vm_compute. repeat split; reflexivity. Qed.
+
+(* D18: Purge('v'), Purge(v(1)), Purge(v[1]) do not purge v *)
+Example C16_fixed_R4_purge_literal_arg :
+  map dcls (lints w_arglit) = [PURGE] /\ map dcls (lints w_argcall) = [PURGE] /\ map dcls (lints w_argindex) = [PURGE] /\
+  lints w_arglit = lints_spec w_arglit /\ lints w_argcall = lints_spec w_argcall /\ lints w_argindex = lints_spec w_argindex.
+Proof. vm_compute. repeat split; reflexivity. Qed.
+
+(* D19: a `pass` terminal in the declaration following Init does not silence the warning, wherever it stands *)
+Example C16_fixed_R5_leak :
+  map dcls (lints w_leak) = [INH] /\ map dcls (lints w_leak2) = [INH] /\
+  lints w_leak = lints_spec w_leak /\ lints w_leak2 = lints_spec w_leak2.
+Proof. vm_compute. repeat split; reflexivity. Qed.
+
+(* ---- regression theorems: the OLD checker steps (Model/Lints.v, *_old) falsify the unguarded statement on the
+        same trees; these are the five behaviours the repair removed, plus the older key defect ---- *)
 
 Theorem C16_old_R1_case_refuted :
-  exists file, WF16 file /\ CaseConsistentPurge file = false /\
-               ~ Permutation (lints_k key_exact file) (lints_spec file).
-Proof. exists w_case. split; [vm_compute; reflexivity|]. split; [vm_compute; reflexivity | not_perm]. Qed.
+  exists file, RootNotFunction file = true /\ ~ Permutation (lints_old_k key_exact file) (lints_spec file).
+Proof. exists w_case. split; [reflexivity | not_perm]. Qed.
 
-(* `proc Init  foo('pass')  endproc`: now flagged, as the rule says *)
-Example C16_fixed_R2_pass_literal :
-  WF16 w_passlit /\ lints w_passlit = lints_spec w_passlit /\ map dcls (lints w_passlit) = [INH].
-Proof. vm_compute. repeat split; reflexivity. Qed.
+(* D15: only the right operand's name of ANY binary operator was looked at *)
+Theorem C16_old_R3_inherited_other_refuted :
+  exists f1 f2 f3, lints_old f1 = [] /\ length (lints_spec f1) = 1%nat /\
+                   lints_old f2 = [] /\ length (lints_spec f2) = 1%nat /\
+                   lints_old f3 = [] /\ length (lints_spec f3) = 1%nat.
+Proof. exists w_inhother, w_inhchain, w_inhexpr. vm_compute. repeat split; reflexivity. Qed.
 
-(* ---- refutations of the unguarded statement (open findings), each on a tree of the real parser;
-        guard_profile upper = [RootNotFunction; QuietOutsideMethods; NoNestedMethods; InheritedSelfOnly;
-                               NoDupLocals; PurgeAfterDecl; PurgeKeyConsistent; PurgeArgsPlain] ---- *)
-
-(* R3 (D15): `inherited other.Init` counts as `inherited self.Init`: only the right operand's name is looked at *)
-Theorem C16_R3_inherited_other_refuted :
-  exists file, guard_profile upper file = [true; true; true; false; true; true; true; true] /\
-               lints file = [] /\ length (lints_spec file) = 1%nat.
-Proof. exists w_inhother. vm_compute. repeat split; reflexivity. Qed.
-
-(* R4a (D16): a local declared twice in one method is flagged once (the map entry is replaced) *)
-Theorem C16_R4_duplicate_local_refuted :
-  exists file, guard_profile upper file = [true; true; true; true; false; true; true; true] /\
-               length (lints file) = 1%nat /\ length (lints_spec file) = 2%nat.
+(* D16: the map entry was replaced *)
+Theorem C16_old_R4_duplicate_local_refuted :
+  exists file, length (lints_old file) = 1%nat /\ length (lints_spec file) = 2%nat.
 Proof. exists w_dup. vm_compute. repeat split; reflexivity. Qed.
 
-(* R4b (D17): `Purge(v)` BEFORE `var v : tVarByteArray` in the same method does not count *)
-Theorem C16_R4_purge_before_decl_refuted :
-  exists file, guard_profile upper file = [true; true; true; true; true; false; true; true] /\
-               length (lints file) = 1%nat /\ lints_spec file = [].
+(* D17: a Purge before the declaration found no map entry *)
+Theorem C16_old_R4_purge_before_decl_refuted :
+  exists file, length (lints_old file) = 1%nat /\ lints_spec file = [].
 Proof. exists w_early. vm_compute. repeat split; reflexivity. Qed.
 
-(* R4c (D18): `Purge('v')`: a string literal (any node whose identifier is v) purges the variable v *)
-Theorem C16_R4_purge_literal_arg_refuted :
-  exists file, guard_profile upper file = [true; true; true; true; true; true; true; false] /\
-               lints file = [] /\ length (lints_spec file) = 1%nat.
-Proof. exists w_arglit. vm_compute. repeat split; reflexivity. Qed.
+(* D18: any first argument whose node identifier is v *)
+Theorem C16_old_R4_purge_literal_arg_refuted :
+  exists f1 f2 f3, lints_old f1 = [] /\ length (lints_spec f1) = 1%nat /\
+                   lints_old f2 = [] /\ length (lints_spec f2) = 1%nat /\
+                   lints_old f3 = [] /\ length (lints_spec f3) = 1%nat.
+Proof. exists w_arglit, w_argcall, w_argindex. vm_compute. repeat split; reflexivity. Qed.
 
-(* R5 (D19): state leaks across declarations: `proc Init endproc` followed by the FIELD declaration
-   `Fld : int4 absolute pass` is not flagged; the flag is reset only at the next method node *)
-Theorem C16_R5_leak_refuted :
-  exists file, guard_profile upper file = [true; false; true; true; true; true; true; true] /\
-               lints file = [] /\ length (lints_spec file) = 1%nat.
+(* D19: the flag was reset only at the next method node *)
+Theorem C16_old_R5_leak_refuted :
+  exists file, lints_old file = [] /\ length (lints_spec file) = 1%nat.
 Proof. exists w_leak. vm_compute. repeat split; reflexivity. Qed.
 
-(* ... hence locality and permutation invariance fail without the clause QuietOutsideMethods:
-   swapping the field and the method (same nodes) changes the report *)
-Theorem C16_local_refuted :
+(* ... hence locality and permutation invariance failed: swapping the field and the method (same nodes)
+   changed the old report, and does not change today's *)
+Theorem C16_old_local_refuted :
   exists i r rg a ch ch',
     Permutation ch ch' /\
-    ~ Permutation (lints (Node KAstRoot i r rg a ch)) (lints (Node KAstRoot i r rg a ch')).
+    ~ Permutation (lints_old (Node KAstRoot i r rg a ch)) (lints_old (Node KAstRoot i r rg a ch')) /\
+    Permutation (lints (Node KAstRoot i r rg a ch)) (lints (Node KAstRoot i r rg a ch')).
 Proof.
   pose (f := w_leak). unfold w_leak in f.
   match eval unfold f in f with Node KAstRoot ?i ?r ?rg ?a [?c; ?p; ?g] =>
     exists i, r, rg, a, [c; p; g], [c; g; p] end.
-  split; [apply perm_skip; apply perm_swap | not_perm].
+  assert (HP : forall (x y z : node), Permutation [x; y; z] [x; z; y]) by (intros; apply perm_skip; apply perm_swap).
+  split; [apply HP | split; [not_perm | apply lints_permute; apply HP]].
 Qed.
 
 Print Assumptions C16_rule_ret.
 Print Assumptions C16_rule_inh.
+Print Assumptions C16_rule_inh_call.
 Print Assumptions C16_rule_purge.
 Print Assumptions C16_rule_name.
 Print Assumptions C16_rule_once.
+Print Assumptions C16_inherited_exact.
+Print Assumptions C16_purge_exact.
 Print Assumptions C16_lints_exact.
-Print Assumptions C16_guard_clauses.
-Print Assumptions C16_guard_today.
-Print Assumptions C16_old_guard_case.
-Print Assumptions C16_old_lints_exact.
+Print Assumptions C16_lints_exact_perm.
+Print Assumptions C16_one_method_per_declaration.
+Print Assumptions C16_lints_by_declaration.
 Print Assumptions C16_lints_local.
 Print Assumptions C16_lints_agree.
 Print Assumptions C16_lints_permute.
@@ -194,12 +244,18 @@ Print Assumptions C16_lints_idempotent.
 Print Assumptions C16_nonvacuous_exact.
 Print Assumptions C16_nonvacuous_local.
 Print Assumptions C16_nonvacuous_idempotent.
+Print Assumptions C16_nonvacuous_forms.
 Print Assumptions C16_fixed_R1_case.
-Print Assumptions C16_old_R1_case_refuted.
 Print Assumptions C16_fixed_R2_pass_literal.
-Print Assumptions C16_R3_inherited_other_refuted.
-Print Assumptions C16_R4_duplicate_local_refuted.
-Print Assumptions C16_R4_purge_before_decl_refuted.
-Print Assumptions C16_R4_purge_literal_arg_refuted.
-Print Assumptions C16_R5_leak_refuted.
-Print Assumptions C16_local_refuted.
+Print Assumptions C16_fixed_R3_inherited_receiver.
+Print Assumptions C16_fixed_R4_duplicate_local.
+Print Assumptions C16_fixed_R4_purge_before_decl.
+Print Assumptions C16_fixed_R4_purge_literal_arg.
+Print Assumptions C16_fixed_R5_leak.
+Print Assumptions C16_old_R1_case_refuted.
+Print Assumptions C16_old_R3_inherited_other_refuted.
+Print Assumptions C16_old_R4_duplicate_local_refuted.
+Print Assumptions C16_old_R4_purge_before_decl_refuted.
+Print Assumptions C16_old_R4_purge_literal_arg_refuted.
+Print Assumptions C16_old_R5_leak_refuted.
+Print Assumptions C16_old_local_refuted.
